@@ -78,7 +78,8 @@ theorem pings_acknowledged (cfg : Cfg) (ops : List Op) :
     (fun hx => by rw [hq0s] at hx; cases hx)).1
 
 /-- **push_refused**: after a PUSH_PROMISE that the client had ruled out (SETTINGS_ENABLE_PUSH = 0,
-acknowledged) it writes no frame at all: the connection is torn down. -/
+acknowledged) the connection is torn down: the monitor's Push machine (nothing but RST_STREAM
+may follow) accepts every run — the model itself writes nothing at all any more. -/
 theorem push_refused (cfg : Cfg) (ops : List Op) :
     ∃ q, Push.run Push.init (history (run cfg ops)) = .ok q := by
   unfold history run
